@@ -158,6 +158,17 @@ type cfbReplay struct {
 // cfbEnc / cfbDec: one call on the real code.  Out of place the destination is pre-filled
 // with the bitwise complement of `expect-visible` bytes, so a byte left unwritten can never
 // equal the plaintext.
+// cfbGuard runs f; a run-time panic becomes a value
+func cfbGuard(f func()) (panicked string) {
+	defer func() {
+		if r := recover(); r != nil {
+			panicked = fmt.Sprint(r)
+		}
+	}()
+	f()
+	return ""
+}
+
 func cfbEnc(bc BlockCrypt, src []byte, inplace bool) []byte {
 	if inplace {
 		b := cfbClone(src)
@@ -266,6 +277,20 @@ func cfbToySweep(t *testing.T, rep *vreport, lg *vlog, rng *vrng, round int) {
 			}
 			if nb>>3 > 0 {
 				rep.Distribution[fmt.Sprintf("toy-bs%d-groups>=1", bs)]++
+			}
+			// a fault inside the unrolled code (index out of range ...) is a finding of this length, not the end of the sweep
+			if pn := cfbGuard(func() {
+				enc(blk, cfbPat(n+extra), cfbClone(src), cfbClone(stale[:bs]))
+				e1 := cfbClone(src)
+				enc(blk, e1, e1, cfbClone(stale[:bs]))
+				dec(blk, cfbPat(n+extra), cfbClone(src), cfbClone(stale[:2*bs]))
+				d1 := cfbClone(src)
+				dec(blk, d1, d1, cfbClone(stale[:2*bs]))
+			}); pn != "" {
+				cfbViolate(rep, fmt.Sprintf("toy%d-%s-panic", bs, cfbLenClass(n)),
+					fmt.Sprintf("encrypt%d/decrypt%d with the toy block, len %d: the call panicked: %s", bs, bs, n, pn),
+					map[string]any{"bs": bs, "len": n, "key": hx(key), "src": hx(src)})
+				continue
 			}
 			// encrypt, two buffers
 			encSep := cfbPat(n + extra)
@@ -406,6 +431,7 @@ func cfbRealCipher(t *testing.T, rep *vreport, rng *vrng, c cfbCipher, key []byt
 	srcs := make([][]byte, cfbMaxLen+1)
 	// what a lone caller obtains, per length: [enc out-of-place, enc in-place, dec out-of-place, dec in-place]
 	alone := make([][4][]byte, cfbMaxLen+1)
+	faulty := map[int]bool{} // lengths whose lone call panicked (reported; left out of the concurrent phases)
 	for n := 0; n <= cfbMaxLen; n++ {
 		src := cfbClone(pool[rng.intn(4096-cfbMaxLen):][:n])
 		srcs[n] = src
@@ -413,6 +439,22 @@ func cfbRealCipher(t *testing.T, rep *vreport, rng *vrng, c cfbCipher, key []byt
 		rep.Distribution["cipher-"+c.name]++
 		if (bs > 0 && n >= bs && n%bs != 0) || (bs == 0 && n > 8) {
 			rep.Nontrivial++
+		}
+		// probe on a throw-away object first: a panic inside Encrypt/Decrypt leaves the object's mutex
+		// held, and must be a finding of this length rather than the end (or a hang) of the whole run
+		if pn := cfbGuard(func() {
+			probe, _ := c.mk(key)
+			p1 := cfbEnc(probe, src, false)
+			cfbEnc(probe, src, true)
+			cfbDec(probe, p1, src, false)
+			cfbDec(probe, p1, src, true)
+		}); pn != "" {
+			cfbViolate(rep, fmt.Sprintf("%s-%s-panic", c.name, cfbLenClass(n)),
+				fmt.Sprintf("%s: Encrypt/Decrypt of a %d-byte packet panicked: %s", c.name, n, pn),
+				cfbReplay{Cipher: c.name, Key: hex.EncodeToString(key), Len: n, Src: hex.EncodeToString(src), Note: "panic: " + pn})
+			alone[n] = [4][]byte{src, src, src, src}
+			faulty[n] = true
+			continue
 		}
 		cfbRoundTrip(rep, c, key, bc, src)
 		alone[n][0] = cfbEnc(bc, src, false)
@@ -491,6 +533,9 @@ func cfbRealCipher(t *testing.T, rep *vreport, rng *vrng, c cfbCipher, key []byt
 				local := 0
 				for i := 0; i <= cfbMaxLen; i++ {
 					n := (i + w*(cfbMaxLen+1)/workers) % (cfbMaxLen + 1)
+					if faulty[n] {
+						continue
+					}
 					for _, k := range phase.ops[w] {
 						got := call(k, n)
 						local++
